@@ -92,6 +92,9 @@ class Tagger:
             c = canon(e)
             if r[0] == "arg" and f.kind == "closure" and f.parent and "execution::Match" in f.parent and re.search(r"\.2$", c):
                 tags.add("M")   # element of Match.named_captures
+            # the same element reached by iterating the vector directly: `for (name, quantifier, index) in &self.named_captures`
+            if re.search(r"\.2$", c) and any(x[0] == "place" and any(p[0] == "field" and p[1] == "tsg::execution::Match" and p[3] == "named_captures" for p in x[2]) for x in walk(e)):
+                tags.add("M")
         return tags
 
     def mat_tag(self, f, e):
@@ -485,12 +488,24 @@ def run(prog, rep):
         if table is None:
             rep.violation("C03.Q", "anchor-lost:from_nodes switch", f.loc(), "no switch on the quantifier")
         else:
+            def arm_calls(v):
+                # a local closure called in the arm (`let mut add = |n| Value::SyntaxNode(graph.add_syntax_node(n))`) contributes its calls;
+                # one handed to `map` / `Option::map` in the arm does too (every closure of from_nodes is a candidate then)
+                out = list(table.get(v, []))
+                cl = {c.id: c for c in prog.closures_of(f)}
+                direct = [c for c in out if c in cl]
+                if not direct and any(re.search(r"(Iterator|Option::<T>)::map$", c) for c in out):
+                    direct = list(cl)
+                for cid in direct:
+                    out += [(callee_fn(t).get("rdef") or callee_fn(t)["def"]) for _b, t in cl[cid].body.calls() if callee_fn(t)]
+                return out
+
             def has(v, pat):
-                return any(re.search(pat, c) for c in table.get(v, []))
+                return any(re.search(pat, c) for c in arm_calls(v))
             rep.check(has("One", r"Iterator::next$") and has("One", r"add_syntax_node$") and not has("One", r"collect$"), "C03.Q", "from_nodes :: One", f.loc(), "One -> add_syntax_node(nodes.next())", "arm One changed: %s" % table.get("One"))
             rep.check(has("ZeroOrOne", r"Iterator::next$") and has("ZeroOrOne", r"add_syntax_node$"), "C03.Q", "from_nodes :: ZeroOrOne", f.loc(), "ZeroOrOne -> match nodes.next()", "arm ZeroOrOne changed: %s" % table.get("ZeroOrOne"))
             for v in ("ZeroOrMore", "OneOrMore"):
-                calls = table.get(v, [])
+                calls = arm_calls(v)
                 rep.check(any(re.search(r"Iterator::map$", c) for c in calls) and any(re.search(r"Iterator::collect$", c) for c in calls) and
                           not any(re.search(r"::(rev|skip|take|filter|step_by|sort\w*|dedup\w*)$", c) for c in calls),
                           "C03.Q", "from_nodes :: %s" % v, f.loc(), "%s -> nodes.map(..).collect() (order preserving, complete)" % v, "arm %s is not a plain map+collect: %s" % (v, calls))
